@@ -441,7 +441,7 @@ func (in *interp) chanSend(ch *channel, v value) {
 	if ch.closed {
 		panic(targetPanic{msg: "send on closed channel"})
 	}
-	ch.buf = append(ch.buf, v)
+	ch.buf = append(ch.buf, copyVal(v))
 	s.wepoch++
 	if in.race != nil {
 		in.race.chanSend(s.cur, ch)
@@ -570,7 +570,7 @@ func (in *interp) selectOp(fr *frame, instr *ssa.Select) value {
 			if x.ch.closed {
 				panic(targetPanic{msg: "send on closed channel"})
 			}
-			x.ch.buf = append(x.ch.buf, x.v)
+			x.ch.buf = append(x.ch.buf, copyVal(x.v))
 			if in.race != nil {
 				in.race.chanSend(s.cur, x.ch)
 			}
